@@ -11,7 +11,7 @@ VERIF_DIR=$(pwd); export VERIF_DIR
 mkdir -p .work/bin evidence replays
 id=${1:?usage: run.sh <id> quick|thorough}
 tier=${2:-quick}
-OVERLAY_CHECKS=" C01 C05 C10 C11 C16 C17 C20 "
+OVERLAY_CHECKS=" C01 C05 C07 C10 C11 C16 C17 C20 "
 
 build() { # $1 = output name, rest = extra go build args
   local out=$1; shift
